@@ -39,6 +39,9 @@ def run(facts, rep, ctx):
             continue
         search_fns.add(enc.search["callee"])
         caps = enc.caps()
+        if caps is None or caps["L"] is None or caps["W"] is None:
+            rep.inconc(R1, "%s: look-ahead / window caps of the search call not recognised (%s)" % (name, None if caps is None else {k: caps[k] for k in ("L", "W")}))
+            continue
         L, W = caps["L"], caps["W"]
         thr = set()
         sizes = set()
@@ -63,23 +66,33 @@ def run(facts, rep, ctx):
             rep.violation(R1, b.name, "threshold", "%s emits references only from length %s: 3-byte repetitions are not exploited" % (name, sorted(thr)), where)
         # ---- wiring ------------------------------------------------------------------------------
         read, cnt, gsize = loop_vars(enc)
-        a = enc.search["args"]
+        a = enc.search_args()
+        if a is None or read is None:
+            rep.inconc(R2, "%s: search arguments differ between paths in a way that is not recognised" % name)
+            continue
+
+        def aff(t):
+            r = affine(t, None)
+            if r is None:
+                return None
+            return ({("n" if enc.classify(k) == "n" else k): v for k, v in r[0].items()}, r[1])
+        R_ = norm(read)
         inp = strip_refs(a[0])
         ok_in = inp[0] == "param" and inp[1] == enc.input_param
-        ok_read = a[1] == read
+        ok_read = aff(a[1]) == ({R_: 1}, 0)
         la = caps["lookahead_other"]
-        ok_la = False
-        if la and len(la) == 1:
-            t = la[0]
-            if t[0] == "field" and t[1][0] == "bin":
-                t = t[1]
-            ok_la = t[0] == "bin" and t[1].startswith("Sub") and enc.classify(t[2]) == "n" and t[3] == read
+        ok_la = bool(la) and len(la) == 1 and aff(la[0]) == ({"n": 1, R_: -1}, 0)
         wo = caps["window_other"]
-        ok_w = bool(wo) and len(wo) == 1 and wo[0] == read
-        op_ = a[3]
-        if op_[0] == "field" and op_[1][0] == "bin":
-            op_ = op_[1]
-        ok_ptr = op_[0] == "bin" and op_[1].startswith("Sub") and op_[2] == read and norm(op_[3]) == norm(a[4])
+        ok_w = bool(wo) and len(wo) == 1 and aff(wo[0]) == ({R_: 1}, 0)
+        # window start + window length = position
+        s3, s4 = aff(a[3]), aff(a[4])
+        ok_ptr = False
+        if s3 is not None and s4 is not None:
+            tot = dict(s3[0])
+            for k, v in s4[0].items():
+                tot[k] = tot.get(k, 0) + v
+            tot = {k: v for k, v in tot.items() if v}
+            ok_ptr = tot == {R_: 1} and s3[1] + s4[1] == 0
         for nm, good, got in (("input", ok_in, a[0]), ("look-ahead", ok_la, a[2]), ("window-start", ok_ptr, a[3])):
             if good:
                 rep.ok(R2, {"encoder": name, "arg": nm})
